@@ -129,6 +129,19 @@ def judge(c, d, out, rc, err):
                             "stop after step %d, %s state, resume: running-average file: line of step %d is %r, in the run "
                             "that went on %r (%d lines missing, %d different)" % (it0 + K, fmt, t0, got.get(t0), want[t0],
                                                                                   len(missing), len(wrong)), K, fmt, obs="runave")
+            # block order: the shuffled state (plus a foreign block) loads to the same objects
+            if c.get("shuffle") and fmt == "text":
+                Sr = runs.get("S_" + lab)
+                if Sr is None or any("err=ok" not in e for e in Sr["events"]):
+                    add("load-error", "blocks:%s:shuffled-state-not-loaded" % fam,
+                        "state written after step %d with its blocks reordered: %s" % (it0 + K, (Sr or {}).get("events")), K, fmt)
+                else:
+                    ds = first_diff(B["steps"], Sr["steps"], fB, pre + "S_%s.colvars.state" % lab, off=0, tol=0.0)
+                    if ds:
+                        t, (obs, x, y) = ds
+                        add("resume", "blocks:%s:%s" % (fam, obs_class(obs)),
+                            "state written after step %d, blocks reordered and a foreign block added: %s %s is %r, with the file as "
+                            "written %r" % (it0 + K, "at step index %s" % t if t is not None else "in the final state", obs, y, x), K, fmt)
             # saving immediately after loading reproduces the loaded state
             f1 = "%sa_%s.colvars.state" % (pre, lab)
             f2 = "%sb_%s.colvars.state" % (pre, lab)
